@@ -340,50 +340,51 @@ def solver_events(job, rng):
 
 
 def selftest_events():
-    """validator self-test: genuine events + copies with ONE recorded field corrupted each (expect = clause TLC must
-    report for the copy)"""
+    """validator self-test: hand-written genuine events (independent of the tree under test) + copies with ONE
+    recorded field corrupted each (expect = the clause TLC must report for the copy)"""
     import copy
-    cache = {}
-    x = ["BVS", "x", [2], []]
-    y = ["BVS", "y", [2], []]
-    z = ["BVV", "", [0, 0], []]
-    cases = [(decorate(TM.T("__add__", x, y), {(0,): [["UA", ["1"]]]}), "unelim"),
-             (decorate(TM.T("__add__", x, z), {(1,): [["RT", ["2"]]]}), "reloc"),
-             (decorate(TM.T("__xor__", x, x), {(0,): [["RA", ["1"]]], (1,): [["RA", ["1"]]]}), "reloc"),
-             (decorate(TM.T("__add__", TM.T("__add__", x, y), z), {(0,): [["UA", ["1"]]]}), "unelim-moved")]
-    for dt, clause in cases:
-        ev = op_event(dt, cache)
-        ev.update(expect="", what="genuine")
-        yield ev
-        c = copy.deepcopy(ev)
-        if clause == "unelim":          # the annotated argument is recorded without its annotation inside the result
-            c["r"][3][0][4] = []
-        elif clause == "reloc":         # the relocated annotation is removed from the top of the recorded result
-            c["r"][4] = []
-        else:                           # the annotation is recorded on the result instead of on the surviving argument
-            c["r"][4] = c["r"][3][0][4]
-            c["r"][3][0] = c["r"][3][0][:4] + [[]]
-        c.update(expect=clause, what="corrupted result")
-        yield c
-    # explicit simplify
-    e = build_dec(decorate(TM.T("__add__", TM.T("__add__", x, ["BVV", "", [1, 0], []]), ["BVV", "", [1, 0], []]),
-                           {(): [["EA", ["90"]], ["UA", ["91"]]]}), cache)
-    ev = {"k": "simp", "w": DUMMY, "e": TM.ser(e, ann=True), "s": TM.ser(claripy.simplify(e), ann=True), "out": "ok",
-          "expect": "", "what": "genuine"}
+
+    def n(op, args=(), anns=(), name="", ints=()):
+        return [op, name, list(ints), list(args), [list(a) for a in anns]]
+
+    U1, R2, RI2, RA1, E9 = ["UA", ["1"]], ["RT", ["2"]], ["RI", ["2"]], ["RA", ["1"]], ["EA", ["90"]]
+    x, y = n("BVS", name="x", ints=[2]), n("BVS", name="y", ints=[2])
+    xu = n("BVS", name="x", ints=[2], anns=[U1])
+    z = n("BVV", ints=[0, 0])
+    zr = n("BVV", ints=[0, 0], anns=[R2])
+    xr = n("BVS", name="x", ints=[2], anns=[RA1])
+    s_xy_u = n("__add__", [x, y], [U1])
+
+    def op(w0, args, r, expect="", what="genuine"):
+        return {"k": "op", "w": n(w0, args), "args": args, "r": r, "out": "ok", "expect": expect, "what": what}
+
+    # x{U1} + y  ->  add(x{U1}, y)            corrupted: the argument is recorded without its annotation inside r
+    yield op("__add__", [xu, y], n("__add__", [xu, y]))
+    yield op("__add__", [xu, y], n("__add__", [x, y]), "unelim", "annotation dropped inside the recorded result")
+    # x + 0{RT2}  ->  x{RI2}                  corrupted: the image is removed from the top of r
+    yield op("__add__", [x, zr], n("BVS", name="x", ints=[2], anns=[RI2]))
+    yield op("__add__", [x, zr], x, "reloc", "relocated annotation removed from the top of the recorded result")
+    # x{RA1} ^ x{RA1}  ->  0{RA1}
+    yield op("__xor__", [xr, xr], n("BVV", ints=[0, 0], anns=[RA1]))
+    yield op("__xor__", [xr, xr], z, "reloc", "relocated annotation removed from the top of the recorded result")
+    # (x + y){U1} + 0  ->  add((x + y){U1}, 0)   corrupted: the annotation is recorded on the result node instead
+    yield op("__add__", [s_xy_u, z], n("__add__", [s_xy_u, z]))
+    yield op("__add__", [s_xy_u, z], n("__add__", [x, y, z], [U1]), "unelim-moved", "annotation recorded on another node")
+    # simplify((x + 1 + 1){E9, U1})  ->  (x + 2){E9, U1}
+    one, two = n("BVV", ints=[1, 0]), n("BVV", ints=[0, 1])
+    e = n("__add__", [n("__add__", [x, one]), one], [E9, U1])
+    ev = {"k": "simp", "w": DUMMY, "e": e, "s": n("__add__", [x, two], [E9, U1]), "out": "ok", "expect": "", "what": "genuine"}
     yield ev
     c = copy.deepcopy(ev)
     c["s"][4] = c["s"][4][:1]
     c.update(expect="simp-top", what="one top annotation removed from the recorded simplified expression")
     yield c
-    # solver
-    s = claripy.Solver()
-    con = build_dec(decorate(TM.T("ULT", TM.T("__add__", ["BVS", "x", [4], []], ["BVV", "", [1, 0, 0, 0], []]),
-                                  ["BVV", "", [1, 1, 0, 0], []]), {(): [["SA", ["1"]]]}), cache)
-    s.add(con)
-    before = [TM.ser(k, ann=True) for k in s.constraints]
-    s.simplify()
-    ev = {"k": "solver", "frontend": "Solver", "cs": [], "before": before,
-          "after": [TM.ser(k, ann=True) for k in s.constraints], "out": "ok", "expect": "", "what": "genuine"}
+    # solver: [ (x + 1 < 3){SA1}, y < 2 ]  ->  unchanged
+    x4 = n("BVS", name="x", ints=[4])
+    con = n("ULT", [n("__add__", [x4, n("BVV", ints=[1, 0, 0, 0])]), n("BVV", ints=[1, 1, 0, 0])], [["SA", ["1"]]])
+    oth = n("ULT", [n("BVS", name="y", ints=[4]), n("BVV", ints=[0, 1, 0, 0])])
+    ev = {"k": "solver", "frontend": "Solver", "cs": [], "before": [con, oth], "after": [copy.deepcopy(con), copy.deepcopy(oth)], "out": "ok",
+          "expect": "", "what": "genuine"}
     yield ev
     c = copy.deepcopy(ev)
     c["after"][0][4] = []
